@@ -156,7 +156,8 @@ func (C04) Explore(x *kernel.Explorer, seed uint64) {
 	r := kernel.NewRNG(seed, 0xc04)
 	for i := 0; i < 4 && !x.Expired(); i++ {
 		plan := &kernel.Plan{Prop: "C04", Seed: kernel.Mix(seed, uint64(i)), Swarm: map[string]int64{
-			"chunk": int64(r.Intn(4)), "colseed": int64(r.Uint32()), "stranger": int64(r.Intn(2))}}
+			"chunk": int64(r.Intn(4)), "colseed": int64(r.Uint32()), "stranger": int64(r.Intn(2)),
+			"mysql": int64(r.Intn(3) / 2), "depeof": int64(r.Intn(2))}}
 		n := 2 + r.Intn(8)
 		for j := 0; j < n; j++ {
 			kind := r.Pick("insert", "insert", "insert-multi", "insert-nocols", "update", "select", "select-star", "insert-returning", "db-error")
@@ -203,6 +204,9 @@ func decodeClientCell(oid uint32, format int16, cell []byte) []byte {
 }
 
 func (C04) Run(t *testing.T, plan *kernel.Plan, keepLog bool) *kernel.Result {
+	if plan.Sw("mysql") == 1 {
+		return c04MySQL(t, plan, keepLog)
+	}
 	w := kernel.NewWorld(plan, keepLog)
 	Bubble(t, plan.Seed, func() {
 		start := time.Now()
